@@ -1,6 +1,6 @@
 (* C07 -- property theorems only: statement + exact + Print Assumptions. *)
 From Coq Require Import List ZArith Reals.
-From LJT Require Import gen.GenDctConst model.Quant model.Dct proofs.QuantCert proofs.QuantProofs proofs.DctProofs proofs.DctRange proofs.RmsBound gen.GenC07Ctl model.C07Ctl proofs.C07CtlProofs model.C07Edge proofs.C07EdgeProofs proofs.DctOrth proofs.DctRound proofs.DctAcc proofs.DctE1 proofs.RmsFinal.
+From LJT Require Import gen.GenDctConst model.Quant model.Dct proofs.QuantCert proofs.QuantProofs proofs.DctProofs proofs.DctRange proofs.RmsBound gen.GenC07Ctl model.C07Ctl proofs.C07CtlProofs model.C07Edge proofs.C07EdgeProofs proofs.DctOrth proofs.DctRound proofs.DctAcc proofs.DctE1 proofs.RmsFinal proofs.IdctRound proofs.IdctE2.
 Import ListNotations.
 Local Open Scope Z_scope.
 
@@ -162,6 +162,33 @@ Theorem C07_rms_bound_forward_partial : matrix_accuracy_fact -> forall cf qtbl s
         <= (qnorm qtbl + e1_bound cf + e2) * (qnorm qtbl + e1_bound cf + e2))%R.
 Proof. exact rms_bound_forward_proof. Qed.
 Print Assumptions C07_rms_bound_forward_partial.
+
+(* the ROUNDING part of e2, derived from the integer model: for every coefficient block and multiplier table whose
+   dequantised values stay within 2^20 (no int workspace wrap), jpeg_idct_islow = range_limit of idct_pre, and every
+   pre-clamp output is within irbound / 2^29 (0.625 for 8-bit, 0.75 for 12-bit data) of the exact integer-linear inverse
+   flow graph idct_lin2d / 2^29; both zero-AC shortcuts included *)
+Theorem C07_idct_rounding_error : forall cf coef mult, cfg_ok cf -> length coef = 64%nat -> length mult = 64%nat ->
+  Forall (fun d => - din_max <= d <= din_max) (deq_block cf coef mult) ->
+  idct_islow cf coef mult = map (range_limit cf) (idct_pre cf coef mult) /\
+  Forall2 (fun s l => - irbound cf <= 2 ^ 29 * s - l <= irbound cf) (idct_pre cf coef mult) (idct_lin2d (deq_block cf coef mult)).
+Proof. exact idct_rounding_error_proof. Qed.
+Print Assumptions C07_idct_rounding_error.
+
+(* the block bound for the MODEL on both sides (valid samples, table entries 1..32767; convsamp, fdct_islow, quantize,
+   dct_table, idct_islow before the clamp): e2 = rounding part (proved) + e2c, where e2c is the ONE named remaining
+   hypothesis idct_constant_accuracy (accuracy of the exact inverse flow-graph matrix against the real IDCT);
+   matrix_accuracy_fact is the forward analogue, proved with Interval in proofs/DctAccInterval.v *)
+Theorem C07_rms_bound_model_partial : matrix_accuracy_fact -> forall cf e2c,
+  idct_constant_accuracy (dmax cf) e2c -> (0 <= e2c)%R ->
+  forall qtbl samples, cfg_ok cf -> length qtbl = 64%nat -> length samples = 64%nat ->
+  (forall q, In q qtbl -> 1 <= q <= 32767) ->
+  Forall (fun s => 0 <= s <= maxsample cf) samples ->
+  exists coefs, forward_block cf qtbl samples = Some coefs /\
+    inverse_block cf qtbl coefs = map (range_limit cf) (idct_pre cf coefs (dct_table cf qtbl)) /\
+    (norm2 64 (fun i => vecZ (idct_pre cf coefs (dct_table cf qtbl)) i - vecZ (convsamp cf samples) i)
+      <= (qnorm qtbl + e1_bound cf + (e2_round cf + e2c)) * (qnorm qtbl + e1_bound cf + (e2_round cf + e2c)))%R.
+Proof. exact rms_bound_model_proof. Qed.
+Print Assumptions C07_rms_bound_model_partial.
 
 (* edge_padding_local: jcprepct.c expand_bottom_edge + jcsample.c expand_right_edge pad a w x h component to
    W x H by replicating the last real row / column: sample (y, x) = image (min y (h-1), min x (w-1)) *)
